@@ -120,6 +120,21 @@ impl GraphBlock {
                 lang.clone()
                     .filter(|lang| !lang.trim().is_empty())
                     .map(|lang| {
+                        // an info string that holds a backtick cannot follow a backtick fence
+                        let fence = if lang.contains('`') {
+                            "~".repeat(
+                                text.lines()
+                                    .map(|line| {
+                                        line.trim_start().chars().take_while(|c| *c == '~').count()
+                                            + 1
+                                    })
+                                    .max()
+                                    .unwrap_or(0)
+                                    .max(3),
+                            )
+                        } else {
+                            fence.clone()
+                        };
                         format!("{} {}\n{}\n{}\n", fence, lang, text.trim_matches('\n'), fence)
                     })
                     .unwrap_or_else(|| format!("{}\n{}\n{}\n", fence, text.trim_matches('\n'), fence))
@@ -208,7 +223,10 @@ impl GraphInline {
                     .max()
                     .unwrap_or(0);
                 let delimiter = "`".repeat(longest + 1);
-                if text.starts_with('`') || text.ends_with('`') {
+                // code with a space at both ends loses one of each when it is read: padded too
+                let spaced =
+                    text.starts_with(' ') && text.ends_with(' ') && !text.trim().is_empty();
+                if text.starts_with('`') || text.ends_with('`') || spaced {
                     format!("{} {} {}", delimiter, text, delimiter)
                 } else {
                     format!("{}{}{}", delimiter, text, delimiter)
